@@ -5,10 +5,11 @@
   registry. One "summary" per mechanism function: the view after the call in terms of the
   view before (projection lemmas, see Lemmas/KernelInv.lean for the pattern).
 -/
-import SimVerif.Lemmas.NetBasic
+import SimVerif.Lemmas.NetTables
 import SimVerif.AcceptSys
 
 namespace SimVerif
+namespace Hs
 
 structure SockV where
   isOpen   : Bool
@@ -18,7 +19,7 @@ structure SockV where
   connectH : Option Nat
   acc      : Option AccState
 
-def TcpSock.view (s : TcpSock) : SockV := ⟨s.isOpen, s.bound, s.fwd, s.chan, s.connectH, s.acc⟩
+def _root_.SimVerif.TcpSock.hview (s : TcpSock) : SockV := ⟨s.isOpen, s.bound, s.fwd, s.chan, s.connectH, s.acc⟩
 
 structure ChanV where
   hops0 : List String
@@ -28,22 +29,22 @@ structure ChanV where
   vis0  : Ep
   vis1  : Ep
 
-def Chan.view (c : Chan) : ChanV := ⟨c.hops0, c.hops1, c.ep0, c.ep1, c.vis0, c.vis1⟩
+def _root_.SimVerif.Chan.hview (c : Chan) : ChanV := ⟨c.hops0, c.hops1, c.ep0, c.ep1, c.vis0, c.vis1⟩
 
-def NetSt.sv (n : NetSt) (o : String) : Option SockV := (n.tcp? o).map TcpSock.view
-def NetSt.cv (n : NetSt) (c : Nat) : Option ChanV := (n.chan? c).map Chan.view
+def _root_.SimVerif.NetSt.sv (n : NetSt) (o : String) : Option SockV := (n.tcp? o).map TcpSock.hview
+def _root_.SimVerif.NetSt.cv (n : NetSt) (c : Nat) : Option ChanV := (n.chan? c).map Chan.hview
 
-@[simp] theorem forwards_nil : forwards [] = [] := rfl
+@[simp] theorem fwdPkts_nil : fwdPkts [] = [] := rfl
 @[simp] theorem okPosts_nil : okPosts [] = [] := rfl
-@[simp] theorem forwards_append (a b : List NEff) : forwards (a ++ b) = forwards a ++ forwards b := by
-  simp [forwards, List.filterMap_append]
+@[simp] theorem fwdPkts_append (a b : List NEff) : fwdPkts (a ++ b) = fwdPkts a ++ fwdPkts b := by
+  simp [fwdPkts, List.filterMap_append]
 @[simp] theorem okPosts_append (a b : List NEff) : okPosts (a ++ b) = okPosts a ++ okPosts b := by
   simp [okPosts, List.filterMap_append]
 
-theorem forwards_ite_single (b : Prop) [Decidable b] (e : NEff) (h : ∀ p, e ≠ .forward p) :
-    forwards (if b then [e] else []) = [] := by
+theorem fwdPkts_ite_single (b : Prop) [Decidable b] (e : NEff) (h : ∀ p, e ≠ .forward p) :
+    fwdPkts (if b then [e] else []) = [] := by
   split
-  · cases e <;> simp_all [forwards]
+  · cases e <;> simp_all [fwdPkts]
   · rfl
 
 theorem okPosts_ite_single (b : Prop) [Decidable b] (e : NEff) (h : ∀ c, e ≠ .post c) :
@@ -53,7 +54,7 @@ theorem okPosts_ite_single (b : Prop) [Decidable b] (e : NEff) (h : ∀ c, e ≠
   · rfl
 
 theorem sv_setTcp (n : NetSt) (name o : String) (t : TcpSock) :
-    (n.setTcp name t).sv o = if o = name then some t.view else n.sv o := by
+    (n.setTcp name t).sv o = if o = name then some t.hview else n.sv o := by
   simp only [NetSt.sv, tcp?_setTcp]; split <;> simp
 
 @[simp] theorem sv_setChan (n : NetSt) (c : Nat) (ch : Chan) (o : String) : (n.setChan c ch).sv o = n.sv o := rfl
@@ -64,13 +65,13 @@ theorem sv_setTcp (n : NetSt) (name o : String) (t : TcpSock) :
 @[simp] theorem cv_newFwd (n : NetSt) (name : String) (c : Nat) : (n.newFwd name).1.cv c = n.cv c := rfl
 
 theorem cv_setChan (n : NetSt) (c d : Nat) (ch : Chan) :
-    (n.setChan c ch).cv d = if d = c then (n.cv d).map (fun _ => ch.view) else n.cv d := by
+    (n.setChan c ch).cv d = if d = c then (n.cv d).map (fun _ => ch.hview) else n.cv d := by
   simp only [NetSt.cv, chan?_setChan]; split
   · cases n.chan? d <;> simp
   · rfl
 
 theorem sv_some {n : NetSt} {o : String} {v : SockV} (h : n.sv o = some v) :
-    ∃ s, n.tcp? o = some s ∧ s.view = v := by
+    ∃ s, n.tcp? o = some s ∧ s.hview = v := by
   simp only [NetSt.sv, Option.map_eq_some_iff] at h; exact h
 
 /-! ### `send_packet` -/
@@ -80,7 +81,7 @@ theorem tcpSendPacket_sum (n : NetSt) (now : Int) (name : String) (p : Pkt) :
     r.1.cfg = n.cfg ∧ r.1.reg = n.reg ∧ r.1.fwds = n.fwds ∧ r.1.chans.length = n.chans.length
     ∧ (∀ o, r.1.sv o = n.sv o) ∧ (∀ c, r.1.cv c = n.cv c)
     ∧ okPosts r.2 = []
-    ∧ (∀ q ∈ forwards r.2, q.ty = p.ty ∧ q.chan = p.chan ∧ q.hops = p.hops) := by
+    ∧ (∀ q ∈ fwdPkts r.2, q.ty = p.ty ∧ q.chan = p.chan ∧ q.hops = p.hops) := by
   unfold NetSt.tcpSendPacket
   cases hs : n.tcp? name with
   | none => simp
@@ -92,7 +93,7 @@ theorem tcpSendPacket_sum (n : NetSt) (now : Int) (name : String) (p : Pkt) :
       refine ⟨rfl, rfl, rfl, by simp, ?_, ?_, ?_, ?_⟩
       · intro o
         rw [sv_setTcp]; split
-        · rename_i h; subst h; simp [NetSt.sv, hs, TcpSock.view]
+        · rename_i h; subst h; simp [NetSt.sv, hs, TcpSock.hview]
         · simp
       · intro c
         rw [cv_setTcp, cv_setChan]
@@ -107,39 +108,39 @@ theorem tcpSendPacket_sum (n : NetSt) (now : Int) (name : String) (p : Pkt) :
         · rfl
       · rw [okPosts_append, okPosts_ite_single _ _ (by intro c h; cases h)]; simp [okPosts]
       · intro q hq
-        rw [forwards_append, forwards_ite_single _ _ (by intro c h; cases h)] at hq
-        simp [forwards] at hq; subst hq; simp
+        rw [fwdPkts_append, fwdPkts_ite_single _ _ (by intro c h; cases h)] at hq
+        simp [fwdPkts] at hq; subst hq; simp
 
 /-! ### `cancel`, `close`, `open` -/
 
 theorem abortRecv_sum (s : TcpSock) :
-    (s.abortRecv).1.view = s.view ∧ okPosts (s.abortRecv).2 = [] ∧ forwards (s.abortRecv).2 = [] := by
+    (s.abortRecv).1.hview = s.hview ∧ okPosts (s.abortRecv).2 = [] ∧ fwdPkts (s.abortRecv).2 = [] := by
   unfold TcpSock.abortRecv
-  refine ⟨rfl, ?_, ?_⟩ <;> (cases s.recvH <;> cases s.waitRecvH <;> simp [okPosts, forwards])
+  refine ⟨rfl, ?_, ?_⟩ <;> (cases s.recvH <;> cases s.waitRecvH <;> simp [okPosts, fwdPkts])
 
 theorem abortSend_sum (s : TcpSock) :
-    (s.abortSend).1.view = s.view ∧ okPosts (s.abortSend).2 = [] ∧ forwards (s.abortSend).2 = [] := by
+    (s.abortSend).1.hview = s.hview ∧ okPosts (s.abortSend).2 = [] ∧ fwdPkts (s.abortSend).2 = [] := by
   unfold TcpSock.abortSend
-  refine ⟨rfl, ?_, ?_⟩ <;> (cases s.sendH <;> simp [okPosts, forwards])
+  refine ⟨rfl, ?_, ?_⟩ <;> (cases s.sendH <;> simp [okPosts, fwdPkts])
 
 theorem cancel_sum (s : TcpSock) :
-    (s.cancel).1.view = { s.view with connectH := none } ∧ okPosts (s.cancel).2 = [] ∧ forwards (s.cancel).2 = [] := by
+    (s.cancel).1.hview = { s.hview with connectH := none } ∧ okPosts (s.cancel).2 = [] ∧ fwdPkts (s.cancel).2 = [] := by
   unfold TcpSock.cancel
   obtain ⟨h1, h2, h3⟩ := abortRecv_sum s
   obtain ⟨h4, h5, h6⟩ := abortSend_sum s.abortRecv.1
   simp only
   cases hc : s.abortRecv.1.abortSend.1.connectH with
   | none =>
-    simp only [hc, okPosts_append, forwards_append, h2, h3, h5, h6]
+    simp only [hc, okPosts_append, fwdPkts_append, h2, h3, h5, h6]
     refine ⟨?_, by simp, by simp⟩
     have := h4.trans h1
-    simp only [TcpSock.view] at this ⊢
+    simp only [TcpSock.hview] at this ⊢
     simp_all
   | some h =>
-    simp only [hc, okPosts_append, forwards_append, h2, h3, h5, h6]
-    refine ⟨?_, by simp [okPosts], by simp [forwards]⟩
+    simp only [hc, okPosts_append, fwdPkts_append, h2, h3, h5, h6]
+    refine ⟨?_, by simp [okPosts], by simp [fwdPkts]⟩
     have := h4.trans h1
-    simp only [TcpSock.view] at this ⊢
+    simp only [TcpSock.hview] at this ⊢
     simp_all
 
 /-- the part of `close` after the optional end-of-stream packet (same text as in
@@ -177,14 +178,14 @@ theorem tcpCloseTail_sum (n : NetSt) (name : String) (v : SockV) (hv : n.sv name
     (n1 : NetSt) (e0 : List NEff)
     (hcfg : n1.cfg = n.cfg) (hreg : n1.reg = n.reg) (hfw : n1.fwds = n.fwds) (hcl : n1.chans.length = n.chans.length)
     (hsv : ∀ o, n1.sv o = n.sv o) (hcv : ∀ c, n1.cv c = n.cv c) (hok : okPosts e0 = [])
-    (hfwd : ∀ q ∈ forwards e0, q.ty = .err) :
+    (hfwd : ∀ q ∈ fwdPkts e0, q.ty = .err) :
     let r := tcpCloseTail n1 name e0
     r.1.cfg = n.cfg ∧ r.1.fwds.length = n.fwds.length ∧ r.1.chans.length = n.chans.length
     ∧ r.1.reg.tcp = (if v.bound.isDefault then n.reg.tcp else simUnbind n.reg.tcp name v.bound)
     ∧ (∀ o, r.1.sv o = if o = name then some ⟨false, {}, none, none, none, v.acc⟩ else n.sv o)
     ∧ (∀ c, r.1.cv c = n.cv c)
     ∧ (∀ g, r.1.fwdTarget g = if v.fwd = some g then none else n.fwdTarget g)
-    ∧ okPosts r.2 = [] ∧ (∀ q ∈ forwards r.2, q.ty = .err) := by
+    ∧ okPosts r.2 = [] ∧ (∀ q ∈ fwdPkts r.2, q.ty = .err) := by
   unfold tcpCloseTail
   have h1 := hsv name
   rw [hv] at h1
@@ -232,18 +233,18 @@ theorem tcpCloseTail_sum (n : NetSt) (name : String) (v : SockV) (hv : n.sv name
       ∧ (∀ o, r.1.sv o = if o = name then some ⟨false, {}, none, none, none, v.acc⟩ else n.sv o)
       ∧ (∀ c, r.1.cv c = n.cv c)
       ∧ (∀ g, r.1.fwdTarget g = if v.fwd = some g then none else n.fwdTarget g)
-      ∧ okPosts r.2 = [] ∧ (∀ q ∈ forwards r.2, q.ty = .err) := by
+      ∧ okPosts r.2 = [] ∧ (∀ q ∈ fwdPkts r.2, q.ty = .err) := by
     intro n2 a1 a2 a3 a4 a5 a6
     obtain ⟨b1, b2, b3, b4, b5, b6, b7⟩ := hfin n2 a1 a2 a3 a4 a5 a6
     refine ⟨b1, b2, b3, b4, ?_, b6, b7, ?_, ?_⟩
     · intro o
       rw [sv_setTcp]
       split
-      · rw [c1]; simp [TcpSock.view, ha]
+      · rw [c1]; simp [TcpSock.hview, ha]
       · exact b5 o
     · rw [okPosts_append, hok, c2]; rfl
     · intro q hq
-      rw [forwards_append, c3, List.append_nil] at hq
+      rw [fwdPkts_append, c3, List.append_nil] at hq
       exact hfwd q hq
   cases hd : s.bound.isDefault with
   | true =>
@@ -262,7 +263,7 @@ theorem tcpClose_sum (n : NetSt) (now : Int) (name : String) (v : SockV) (hv : n
     ∧ (∀ o, r.1.sv o = if o = name then some ⟨false, {}, none, none, none, v.acc⟩ else n.sv o)
     ∧ (∀ c, r.1.cv c = n.cv c)
     ∧ (∀ g, r.1.fwdTarget g = if v.fwd = some g then none else n.fwdTarget g)
-    ∧ okPosts r.2 = [] ∧ (∀ q ∈ forwards r.2, q.ty = .err) := by
+    ∧ okPosts r.2 = [] ∧ (∀ q ∈ fwdPkts r.2, q.ty = .err) := by
   obtain ⟨s0, hs0, hv0⟩ := sv_some hv
   rw [tcpClose_eq]
   simp only [hs0]
@@ -282,7 +283,7 @@ theorem tcpClose_sum (n : NetSt) (now : Int) (name : String) (v : SockV) (hv : n
           | (intro o
              rw [t5, sv_setTcp]
              split
-             · rename_i h; subst h; simp [NetSt.sv, hs0, TcpSock.view]
+             · rename_i h; subst h; simp [NetSt.sv, hs0, TcpSock.hview]
              · rfl)
       · simp
 
@@ -293,7 +294,7 @@ theorem tcpOpen_sum (n : NetSt) (now : Int) (name : String) (v4 : Bool) (v : Soc
     ∧ (∀ o, r.1.sv o = if o = name then some ⟨true, {}, some n.fwds.length, none, none, v.acc⟩ else n.sv o)
     ∧ (∀ c, r.1.cv c = n.cv c)
     ∧ (∀ g, r.1.fwdTarget g = if g = n.fwds.length then some name else if v.fwd = some g then none else n.fwdTarget g)
-    ∧ okPosts r.2 = [] ∧ (∀ q ∈ forwards r.2, q.ty = .err) := by
+    ∧ okPosts r.2 = [] ∧ (∀ q ∈ fwdPkts r.2, q.ty = .err) := by
   obtain ⟨c1, c2, c3, c4, c5, c6, c7, c8, c9⟩ := tcpClose_sum n now name v hv
   unfold NetSt.tcpOpen
   generalize n.tcpClose now name = r at *
@@ -311,14 +312,14 @@ theorem tcpOpen_sum (n : NetSt) (now : Int) (name : String) (v4 : Bool) (v : Soc
       have hb : s1.bound = {} := congrArg SockV.bound hv1
       have hc : s1.chan = none := congrArg SockV.chan hv1
       have hd : s1.connectH = none := congrArg SockV.connectH hv1
-      simp [TcpSock.view, c2, ha, hb, hc, hd]
+      simp [TcpSock.hview, c2, ha, hb, hc, hd]
     · rename_i h; simp [c5 o, h]
   · intro c; simp [c6 c]
   · intro g
     rw [setTcp_fwdTarget, fwdTarget_newFwd, c2, c7 g]
 
 theorem cv_some {n : NetSt} {c : Nat} {v : ChanV} (h : n.cv c = some v) :
-    ∃ ch, n.chan? c = some ch ∧ ch.view = v := by
+    ∃ ch, n.chan? c = some ch ∧ ch.hview = v := by
   simp only [NetSt.cv, Option.map_eq_some_iff] at h; exact h
 
 /-! ### `tcp::socket::internal_connect` (attach an incoming connection) -/
@@ -331,7 +332,7 @@ theorem tcpAttach_sum (n : NetSt) (now : Int) (peer : String) (bindEp : Ep) (cid
     ∧ (∀ o, r.1.sv o = if o = peer then some ⟨true, bindEp, some n.fwds.length, some cid, none, v.acc⟩ else n.sv o)
     ∧ (∀ d, r.1.cv d = if d = cid then some { cv0 with hops1 := cv0.hops1.dropLast ++ [fwdHop n.fwds.length] } else n.cv d)
     ∧ (∀ g, r.1.fwdTarget g = if g = n.fwds.length then some peer else if v.fwd = some g then none else n.fwdTarget g)
-    ∧ okPosts r.2 = [] ∧ (∀ q ∈ forwards r.2, q.ty = .err) := by
+    ∧ okPosts r.2 = [] ∧ (∀ q ∈ fwdPkts r.2, q.ty = .err) := by
   obtain ⟨p0, hp0, _⟩ := sv_some hv
   obtain ⟨c1, c2, c3, c4, c5, c6, c7, c8, c9⟩ := tcpOpen_sum n now peer p0.isV4 v hv
   unfold NetSt.tcpAttach
@@ -355,14 +356,14 @@ theorem tcpAttach_sum (n : NetSt) (now : Int) (peer : String) (bindEp : Ep) (cid
     split
     · have hd : p.connectH = none := congrArg SockV.connectH hpv
       have ho : p.isOpen = true := congrArg SockV.isOpen hpv
-      simp [TcpSock.view, hf, ha, hd, ho]
+      simp [TcpSock.hview, hf, ha, hd, ho]
     · rename_i h; simp [c5 o, h]
   · intro d
     rw [cv_setChan, cv_setTcp]
     split
     · rename_i h; subst h
       rw [h2]
-      simp only [Option.map_some, hf, Chan.view, hh, Option.some.injEq]
+      simp only [Option.map_some, hf, Chan.hview, hh, Option.some.injEq]
       rw [← hchv]; rfl
     · exact c6 d
   · intro g
@@ -371,22 +372,22 @@ theorem tcpAttach_sum (n : NetSt) (now : Int) (peer : String) (bindEp : Ep) (cid
 /-! ### the acceptor -/
 
 theorem abortAccept_sum (s : TcpSock) :
-    (s.abortAccept).1.view = { s.view with acc := s.acc.map (fun a => { a with acceptOp := none }) }
-    ∧ okPosts (s.abortAccept).2 = [] ∧ forwards (s.abortAccept).2 = [] := by
+    (s.abortAccept).1.hview = { s.hview with acc := s.acc.map (fun a => { a with acceptOp := none }) }
+    ∧ okPosts (s.abortAccept).2 = [] ∧ fwdPkts (s.abortAccept).2 = [] := by
   unfold TcpSock.abortAccept
   cases ha : s.acc with
-  | none => simp [TcpSock.view, ha]
+  | none => simp [TcpSock.hview, ha]
   | some a =>
     cases hop : a.acceptOp with
     | none =>
       simp only [Option.map_some, hop]
       refine ⟨?_, rfl, rfl⟩
-      simp only [TcpSock.view, ha, ← hop]
+      simp only [TcpSock.hview, ha, ← hop]
     | some op =>
       simp only [Option.map_some, hop]
       refine ⟨rfl, ?_, ?_⟩
       · cases op <;> simp [okPosts, acceptAbortEff]
-      · cases op <;> simp [forwards, acceptAbortEff]
+      · cases op <;> simp [fwdPkts, acceptAbortEff]
 
 /-- nothing to hand over: no accept outstanding, or no connection queued -/
 theorem accCheckQueue_idle (n : NetSt) (now : Int) (a : String) (va : SockV) (ac : AccState)
@@ -408,7 +409,7 @@ theorem accCheckQueue_closed (n : NetSt) (now : Int) (a : String) (va : SockV) (
     let r := n.accCheckQueue now a
     r.1.cfg = n.cfg ∧ r.1.fwds = n.fwds ∧ r.1.chans = n.chans ∧ r.1.reg = n.reg
     ∧ (∀ o, r.1.sv o = if o = a then some { va with acc := some { ac with conns := [], acceptOp := none } } else n.sv o)
-    ∧ okPosts r.2 = [] ∧ (∀ q ∈ forwards r.2, q.ty = .err) := by
+    ∧ okPosts r.2 = [] ∧ (∀ q ∈ fwdPkts r.2, q.ty = .err) := by
   obtain ⟨s0, hs0, hv0⟩ := sv_some hv
   have h1 : s0.acc = some ac := by rw [← hac, ← hv0]; rfl
   have h2 : s0.isOpen = false := by rw [← ho, ← hv0]; rfl
@@ -421,19 +422,19 @@ theorem accCheckQueue_closed (n : NetSt) (now : Int) (a : String) (va : SockV) (
   simp only at b1 b2 b3 ⊢
   have hacc : s1.acc = some { ac with conns := [], acceptOp := none } := by
     have := congrArg SockV.acc b1
-    simpa [TcpSock.view] using this
+    simpa [TcpSock.hview] using this
   simp only [tcp?_setTcp_same, hacc]
   refine ⟨rfl, rfl, rfl, rfl, ?_, ?_, ?_⟩
   · intro o
     rw [sv_setTcp]
     split
-    · rw [b1, ← hv0]; simp [TcpSock.view]
+    · rw [b1, ← hv0]; simp [TcpSock.hview]
     · rfl
   · rw [okPosts_append, b2]
     simp [okPosts, List.filterMap_filterMap]
   · intro q hq
-    rw [forwards_append, b3] at hq
-    simp [forwards, List.filterMap_filterMap] at hq
+    rw [fwdPkts_append, b3] at hq
+    simp [fwdPkts, List.filterMap_filterMap] at hq
     obtain ⟨c, _, hq⟩ := hq
     cases hcc : n.chan? c with
     | none => simp [hcc] at hq
@@ -453,8 +454,8 @@ theorem accCheckQueue_pop (n : NetSt) (now : Int) (a : String) (va : SockV) (ac 
                       else n.sv o)
     ∧ (∀ d, r.1.cv d = if d = c then some { cv0 with hops1 := cv0.hops1.dropLast ++ [fwdHop n.fwds.length] } else n.cv d)
     ∧ (∀ g, r.1.fwdTarget g = if g = n.fwds.length then some op.peer else if vp.fwd = some g then none else n.fwdTarget g)
-    ∧ okPosts r.2 = [⟨op.h, .ok, if op.withEp then "ep=" ++ cv0.vis0.toString else ""⟩]
-    ∧ (∀ q ∈ forwards r.2, q.ty = .err ∨ (q.ty = .synack ∧ q.chan = some c ∧ q.hops = cv0.hops0)) := by
+    ∧ okPosts r.2 = [{ h := op.h, ec := .ok, extra := if op.withEp then "ep=" ++ cv0.vis0.toString else "" }]
+    ∧ (∀ q ∈ fwdPkts r.2, q.ty = .err ∨ (q.ty = .synack ∧ q.chan = some c ∧ q.hops = cv0.hops0)) := by
   obtain ⟨s0, hs0, hv0⟩ := sv_some hv
   have h1 : s0.acc = some ac := by rw [← hac, ← hv0]; rfl
   have h2 : s0.isOpen = true := by rw [← ho, ← hv0]; rfl
@@ -507,12 +508,12 @@ theorem accCheckQueue_pop (n : NetSt) (now : Int) (a : String) (va : SockV) (ac 
       simp [okPosts, AcceptOp.h, AcceptOp.withEp, hvis]
       try (rename_i w; cases w <;> rfl)
     · intro q hq
-      simp only [forwards_append, List.mem_append, forwards_nil, List.not_mem_nil, false_or] at hq
+      simp only [fwdPkts_append, List.mem_append, fwdPkts_nil, List.not_mem_nil, false_or] at hq
       rcases hq with hq | hq
       · exact Or.inl (c9 q hq)
       · right
         have hh : ch2.hops0 = cv0.hops0 := congrArg ChanV.hops0 hchv2
-        simp [forwards] at hq; subst hq; simp [hh] )
+        simp [fwdPkts] at hq; subst hq; simp [hh] )
 
 /-! ### `simulation::internal_connect` -/
 
@@ -521,10 +522,10 @@ def SockV.listening (v : SockV) : Bool :=
   | some a => decide (0 < a.queueLimit)
   | none => false
 
-theorem isListening_view (s : TcpSock) : s.isListening = s.view.listening := rfl
+theorem isListening_view (s : TcpSock) : s.isListening = s.hview.listening := rfl
 
 /-- the dialled endpoint is owned by a listening socket -/
-def NetSt.Listening (n : NetSt) (target : Ep) : Prop :=
+def _root_.SimVerif.NetSt.Listening (n : NetSt) (target : Ep) : Prop :=
   ∃ rname rs, n.reg.tcp.lookup target = some rname ∧ n.tcp? rname = some rs ∧ rs.isListening = true
 
 theorem internalConnect_refused (n : NetSt) (name : String) (target : Ep) (h : ¬ n.Listening target) :
@@ -573,7 +574,7 @@ theorem internalConnect_ok (n : NetSt) (name : String) (target : Ep) (v : SockV)
     intro d
     simp only [NetSt.cv, NetSt.chan?]
     by_cases hd : d = n.chans.length
-    · subst hd; simp [Chan.view, NetSt.incomingRoute]
+    · subst hd; simp [Chan.hview, NetSt.incomingRoute]
     · simp only [hd, if_false]
       by_cases hlt : d < n.chans.length
       · rw [List.getElem?_append_left hlt]
@@ -592,7 +593,7 @@ theorem accClose_sum (n : NetSt) (now : Int) (a : String) (va : SockV) (ac : Acc
     ∧ (∀ o, r.1.sv o = if o = a then some ⟨false, {}, none, none, none, some { ac with queueLimit := -1, conns := [], acceptOp := none }⟩ else n.sv o)
     ∧ (∀ c, r.1.cv c = n.cv c)
     ∧ (∀ g, r.1.fwdTarget g = if va.fwd = some g then none else n.fwdTarget g)
-    ∧ okPosts r.2 = [] ∧ (∀ q ∈ forwards r.2, q.ty = .err) := by
+    ∧ okPosts r.2 = [] ∧ (∀ q ∈ fwdPkts r.2, q.ty = .err) := by
   obtain ⟨s0, hs0, hv0⟩ := sv_some hv
   have h1 : s0.acc = some ac := by rw [← hac, ← hv0]; rfl
   unfold NetSt.accClose
@@ -623,7 +624,7 @@ theorem accClose_sum (n : NetSt) (now : Int) (a : String) (va : SockV) (ac : Acc
   · intro g; simp only [NetSt.fwdTarget, d2]; exact c7 g
   · rw [okPosts_append, okPosts_append, b2, c8, d6]; rfl
   · intro q hq
-    rw [forwards_append, forwards_append, b3, List.nil_append] at hq
+    rw [fwdPkts_append, fwdPkts_append, b3, List.nil_append] at hq
     rcases List.mem_append.mp hq with hq | hq
     · exact c9 q hq
     · exact d7 q hq
@@ -656,7 +657,7 @@ theorem accIncoming_syn (n : NetSt) (now : Int) (a : String) (pk : Pkt) (c : Nat
 theorem tcpIncoming_synack (tp : TParams) (n : NetSt) (now : Int) (name : String) (pk : Pkt) (v : SockV)
     (hv : n.sv name = some v) (hty : pk.ty = .synack) :
     (v.connectH = none → n.tcpIncoming tp now name pk = (n, []))
-    ∧ (∀ hh, v.connectH = some hh → ∃ s0, n.tcp? name = some s0 ∧ s0.view = v ∧
+    ∧ (∀ hh, v.connectH = some hh → ∃ s0, n.tcp? name = some s0 ∧ s0.hview = v ∧
         n.tcpIncoming tp now name pk
           = (n.setTcp name { s0 with connectH := none }, [.post { h := hh, ec := .ok }, .tcpWake name])) := by
   obtain ⟨s0, hs0, hv0⟩ := sv_some hv
@@ -812,7 +813,7 @@ theorem connDial_sum (n : NetSt) (name : String) (target : Ep) (h : Nat) (e0 : L
     by_cases hl : n.Listening target
     · right
       obtain ⟨rname, rs, l1, l2, l3⟩ := hl
-      obtain ⟨c1, c2, _, _, c5, _, _, _⟩ := internalConnect_ok n name target s.view rname rs.view
+      obtain ⟨c1, c2, _, _, c5, _, _, _⟩ := internalConnect_ok n name target s.hview rname rs.hview
         (by simp [NetSt.sv, hs]) l1 (by simp [NetSt.sv, l2]) (by rw [← isListening_view]; exact l3)
       generalize n.internalConnect name target = r at *
       obtain ⟨n1, e1, cid⟩ := r
@@ -826,4 +827,5 @@ theorem connDial_sum (n : NetSt) (name : String) (target : Ep) (h : Nat) (e0 : L
       simp only [hs, List.append_nil]
       exact ⟨hl, trivial, trivial⟩
 
+end Hs
 end SimVerif
